@@ -493,3 +493,33 @@ def r12k(fb, rep):
         else:
             rep.ok(R, "call_first %s: result read with last() and popped on every path to the return" % sig)
     rep.floor(R, "Function::call_first instances", n, 8)
+
+
+def r12l(fb, rep):
+    """R12l — an empty array has no representation of its own.  `ArrayDef` takes the representation of an array from its first
+    element, so `Vec::<f64>::new()` pushed from Rust and the Gluon literal `[]` are stored as `Repr::Unknown`;
+    `ValueArray::as_slice::<T>` therefore accepts `T::matches(repr) || is_empty()`.  Any other test of `ArrayRepr::matches`
+    against an array's representation refuses (or panics on) the empty array of every element type.  Rule (who-may-call): the
+    only caller of `ArrayRepr::matches` in the workspace is `ValueArray::as_slice*`, and that caller also asks `is_empty`."""
+    R = "R12l"
+    rep.rule(R, "the element representation of an array is only tested together with the empty-array exception (ValueArray::as_slice)")
+    callers = {}
+    for b in fb.bodies.values():
+        if b.crate.name not in ("gluon_vm", "gluon", "gluon_c_api"):
+            continue
+        for c in b.calls():
+            if c.res.endswith("ArrayRepr::matches") or ("ArrayRepr" in c.res and c.res.rsplit("::", 1)[-1] == "matches"):
+                callers.setdefault(b.id.split("::{closure")[0], []).append(c)
+    if not callers:
+        rep.anchor_lost(R, "a caller of ArrayRepr::matches (ValueArray::as_slice)")
+        return
+    for bid, cs in sorted(callers.items()):
+        b = fb.body(bid)
+        if bid.startswith("gluon_vm::value::ValueArray::as_slice"):
+            if b is not None and any(x.res.endswith("ValueArray::is_empty") or x.res.endswith("ValueArray::len") for x in b.calls()):
+                rep.ok(R, "%s: matches(repr) || is_empty()" % bid)
+            else:
+                rep.violation(R, "as-slice-without-empty-exception", "%s tests the representation without the empty-array exception: the empty array of every typed element kind is refused" % bid, cs[0].where())
+        else:
+            rep.violation(R, "repr-tested-outside-as-slice|%s" % bid, "%s tests an array's representation with ArrayRepr::matches itself: an empty array is stored as Repr::Unknown whatever its element "
+                          "type, so the test refuses (or panics on) `[]` / an empty Vec; only ValueArray::as_slice pairs the test with the emptiness exception" % bid, cs[0].where())
